@@ -1,0 +1,31 @@
+//go:build verif
+
+package epubdoc
+
+// Contracts for gocv (comment-only; see /verif/DESIGN.md).  No executable code.
+
+// ---- C20: DRM decision ----
+// font obfuscation = an Adobe or IDPF obfuscation algorithm identifier
+//@ func isFontObfuscation results (r)
+//@   property C20
+//@   flags inline
+//@   ensures r == ((strings.Contains(algorithm, "adobe.com") || strings.Contains(algorithm, "idpf.org")) && strings.Contains(algorithm, "obfuscation"))
+
+//@ func isContentFile results (r)
+//@   property C20
+//@   flags inline
+//@   ensures let u = strings.ToLower(old(uri)) in r == (strings.HasSuffix(u, ".xhtml") || strings.HasSuffix(u, ".html") || strings.HasSuffix(u, ".htm") || strings.HasSuffix(u, ".xml") || strings.HasSuffix(u, ".css"))
+
+// a rights file anywhere in the archive refuses the book
+//@ func checkForDRM results (err)
+//@   property C20
+//@   ensures rights_refused: (exists k int :: 0 <= k && k < len(zr.File) && zr.File[k].Name == "META-INF/rights.xml") ==> err
+//@   loop 0:
+//@     invariant forall k int :: {zr.File[k]} 0 <= k && k < $i ==> zr.File[k].Name != "META-INF/rights.xml"
+
+// encrypted content = some entry that is not font obfuscation and covers a content document
+//@ func hasEncryptedContent results (r, err)
+//@   property C20
+//@   ensures decision: !err ==> (r <==> exists k int :: 0 <= k && k < len(enc.EncryptedData) && !isFontObfuscation(enc.EncryptedData[k].EncryptionMethod.Algorithm) && isContentFile(strings.ToLower(enc.EncryptedData[k].CipherData.CipherReference.URI)))
+//@   loop 0:
+//@     invariant forall k int :: {enc.EncryptedData[k]} 0 <= k && k < $i ==> !(!isFontObfuscation(enc.EncryptedData[k].EncryptionMethod.Algorithm) && isContentFile(strings.ToLower(enc.EncryptedData[k].CipherData.CipherReference.URI)))
